@@ -30,6 +30,8 @@ def run(ctx):
                       "task exactly once and the tasks are created in call order (supersession assumes that what was scheduled later starts later)", floor=1)
     ctx.rule("R10.v", "rx value-setter model: `x.rx.value = v` assigns to the root's wrapper in every case -- also when v resolves to the very object the root holds: for a root driven by a "
                       "coroutine / async generator that assignment is what ends the reference and cancels the pending evaluation (shared with R09.v)", floor=1)
+    ctx.rule("R10.u", "update model (shared with R02.u): Parameters._update hands EVERY given key to the setter, also a key given the very object the parameter holds -- the assignment is "
+                      "what ends the link and cancels the pending asynchronous reference", floor=1)
     ctx.rule("R10.p", "relink model: Parameter._relink interpreted with the parameter currently linked to an object whose `==` is always truthy (a reactive expression) / to a plain reference, and "
                       "the new reference None / another reference / the same one: Parameters._update_ref(name, ref) is called exactly once in every case (it is what cancels what is pending)", floor=1)
     ctx.rule("R10.s", "sync model, asynchronous link: Parameters._sync_refs interpreted with a parameter that follows a coroutine function bound to S.a, an event for S.a arriving at an ordinary "
@@ -304,3 +306,5 @@ def run(ctx):
     ctor_model.report(ctx, "C10", "R10.k")
     from checks import link_model
     link_model.report(ctx, "C10", "R10.l")
+    from checks import update_model
+    update_model.report(ctx, "C10", "R10.u")
